@@ -2,6 +2,7 @@
 //! (shared by the `tverif` binary and the libFuzzer targets under /verif/fuzz).
 
 pub mod conv;
+pub mod fuzz;
 pub mod gen;
 pub mod props;
 pub mod refm;
